@@ -68,7 +68,7 @@ func reductions(c *Case) []*Case {
 		}
 	}
 	// schema: drop a type nothing mentions; drop a field nothing selects
-	mentioned := map[string]bool{c.Schema.Query: true, c.Schema.Mutation: true}
+	mentioned := map[string]bool{c.Schema.Query: true, c.Schema.Mutation: true, c.Schema.Subscription: true}
 	selected := map[string]bool{}
 	var walk func(ss []Sel)
 	walk = func(ss []Sel) {
